@@ -195,7 +195,8 @@ INJ_TAG = 0x80000000
 
 
 class CWorld:
-    def __init__(self, maxlen: int):
+    def __init__(self, maxlen: int, base: int = 1):
+        self.base = base                    # the endpoint's first packet id (LL endpoints start at 1, hippolyzer's own client at 0)
         self.tp = _Transport()
         self.c = ProxiedCircuit(("127.0.0.1", 1), ("127.0.0.1", 2), self.tp)
         self.c.out_injections = InjectionTracker(0, maxlen=maxlen)
@@ -203,8 +204,8 @@ class CWorld:
         self.sent: Dict[int, int] = {}      # endpoint id -> wire id at first forward
         self.injected: List[int] = []       # wire ids of proxy-made OUT packets, in order
         self.dropped: List[int] = []        # endpoint ids dropped (never forwarded at that time)
-        self.max_sent = 0
-        self.max_wire = 0
+        self.max_sent = base - 1
+        self.max_wire = -1
         self.n_inj = 0
         self.oos: set = set()               # endpoint ids that were out of scope when first forwarded (never asserted)
         self.violations: List[Dict[str, Any]] = []
@@ -219,13 +220,14 @@ class CircuitHarness:
     """Same laws, observed on captured datagrams of a real ProxiedCircuit (direction OUT = viewer -> simulator)."""
     copyable = False
 
-    def __init__(self, maxlen: int, ack_width: int = 3):
+    def __init__(self, maxlen: int, ack_width: int = 3, base: int = 1):
+        self.base = base
         self.maxlen = maxlen
         self.ack_width = ack_width      # how many of the newest wire ids the back-translation observation permutes
         self._ack_memo: set = set()
 
     def fresh(self) -> CWorld:
-        return CWorld(self.maxlen)
+        return CWorld(self.maxlen, self.base)
 
     @staticmethod
     def _wire_acks(data: bytes):
@@ -247,10 +249,10 @@ class CircuitHarness:
         """Forward translation through its other entry point: a forwarded StartPingCheck carries OldestUnacked = an id the endpoint
         sent earlier; on the wire it must read the wire id that packet went out as (stable, never an injected id). The carrier
         re-uses the endpoint's newest packet id, so the observation leaves the trackers as they are."""
-        if not w.max_sent or w.max_sent not in w.sent:
+        if w.max_sent < w.base or w.max_sent not in w.sent:
             return
         evicted = w.injected[:-self.maxlen] if len(w.injected) > self.maxlen else []
-        newest_evicted = evicted[-1] if evicted else 0
+        newest_evicted = evicted[-1] if evicted else -1
         inj_all = set(w.injected)
         todo = [(n, wire) for n, wire in sorted(w.sent.items()) if wire > newest_evicted and n not in w.oos and wire not in inj_all]
         key = ("ping", _tstate(w.c.out_injections), tuple(todo), w.max_sent)
@@ -289,7 +291,7 @@ class CircuitHarness:
         must reach the viewer acknowledging exactly the original ids of the non-injected ones (as a multiset; order is not stated). The carrier
         packets all carry inbound packet id 1, so the observation leaves the circuit's state as the first of them left it."""
         evicted = w.injected[:-self.maxlen] if len(w.injected) > self.maxlen else []
-        newest_evicted = evicted[-1] if evicted else 0
+        newest_evicted = evicted[-1] if evicted else -1
         inj_all = set(w.injected)
         expect: Dict[int, Any] = {}
         for n, wire in w.sent.items():
@@ -341,7 +343,7 @@ class CircuitHarness:
 
     def enabled(self, w: CWorld):
         evs = [("S", 0), ("S", 1), ("I",), ("G", 1), ("D", 0), ("D", 1), ("T", 1)]
-        for n in range(1, w.max_sent + 1):
+        for n in range(w.base, w.max_sent + 1):
             evs.append(("O", n, 0))
             if n not in w.sent:
                 evs.append(("O", n, 1))     # late first sight of a hole, flagged RESENT
@@ -420,11 +422,11 @@ class CircuitHarness:
         # injection that has aged out of the tracker's window at the time of the step
         pre_inj = list(w.injected)
         ev_list = pre_inj[:-self.maxlen] if len(pre_inj) > self.maxlen else []
-        newest_evicted = ev_list[-1] if ev_list else 0
+        newest_evicted = ev_list[-1] if ev_list else -1
 
         def ref_wire(n: int) -> int:
-            k, x, inj = 0, 0, set(pre_inj)
-            while k < n:
+            k, x, inj = 0, w.base - 1, set(pre_inj)
+            while k < n - w.base + 1:
                 x += 1
                 if x not in inj:
                     k += 1
@@ -444,7 +446,7 @@ class CircuitHarness:
                 w.injected.append(wire)
             else:
                 n = tag
-                if (w.sent.get(n) or ref_wire(n)) <= newest_evicted:
+                if (w.sent[n] if n in w.sent else ref_wire(n)) <= newest_evicted:
                     w.sent.setdefault(n, wire)      # out of scope: older than an evicted injection (bounded memory)
                     w.oos.add(n)
                     w.max_wire = max(w.max_wire, wire)
@@ -468,7 +470,7 @@ class CircuitHarness:
     def oracle(self, w: CWorld, bad):
         t = w.c.out_injections
         evicted = w.injected[:-self.maxlen] if len(w.injected) > self.maxlen else []
-        newest_evicted = evicted[-1] if evicted else 0
+        newest_evicted = evicted[-1] if evicted else -1
         window = w.injected[len(evicted):]
         inj_all = set(w.injected)
         prev = None
@@ -502,7 +504,7 @@ def run(run: Run):
     devb = 3 if run.tier == "quick" else 4
     run.rule = ("explicit-state BFS over {S, G(1|2), O(n), I} on the real InjectionTracker with window maxlen in {1,2,3}, plus a second "
                 "search over {S, S-first-sight-RESENT, G, O(n), O(n)-RESENT, I, D(rop), T(ake+reinject), DO(n)} on a real ProxiedCircuit "
-                "(tracker window 2 and 10000) observing packet ids on the captured datagrams and, in every state, the acks that reach the viewer for "
+                "(tracker window 2 and 10000 with the endpoint numbering from 1, window 2 numbering from 0) observing packet ids on the captured datagrams and, in every state, the acks that reach the viewer for "
                 "every ordered list of up to 3 of the newest 3 (thorough: 4) wire ids acknowledged by an inbound packet (appended / PacketAck body / "
                 "appended to a dropped packet), and the OldestUnacked a forwarded StartPingCheck carries for every in-scope id sent so far; "
                 "states deduplicated on (injections, bases, first-translation map, all-time injections); non-trivial = "
@@ -518,9 +520,9 @@ def run(run: Run):
         pass
     cdepth = 6 if run.tier == "quick" else 7
     cdev = 3 if run.tier == "quick" else 4
-    for maxlen in (2, 10000):
-        explore.bfs(run, CircuitHarness(maxlen, ack_width=3 if run.tier == "quick" else 4), depth=cdepth, dev_bound=cdev,
-                    label=f"circuit maxlen={maxlen} ")
+    for maxlen, base in ((2, 1), (10000, 1), (2, 0)):
+        explore.bfs(run, CircuitHarness(maxlen, ack_width=3 if run.tier == "quick" else 4, base=base), depth=cdepth, dev_bound=cdev,
+                    label=f"circuit maxlen={maxlen} first-id={base} ")
     run.coverage_extra["depth"] = depth
     run.coverage_extra["deviation_bound"] = devb
     run.coverage_extra["circuit_depth"] = cdepth
@@ -529,20 +531,21 @@ def run(run: Run):
     for v in run.violations:
         hist = v["witness"]["history"]
         seam = "circuit" if v["site"].startswith("ProxiedCircuit") or any(len(e) and e[0] in ("D", "T", "DO") or (e[0] in ("S", "O") and len(e) > (1 if e[0] == "S" else 2)) for e in hist) else "tracker"
-        cands = [("circuit", CircuitHarness(m), m) for m in (2, 10000)] if seam == "circuit" else [("tracker", Harness(m), m) for m in (1, 2, 3)]
-        for kind, h, maxlen in cands:
+        cands = ([("circuit", CircuitHarness(m, base=b), m, b) for m, b in ((2, 1), (10000, 1), (2, 0))] if seam == "circuit"
+                 else [("tracker", Harness(m), m, 1) for m in (1, 2, 3)])
+        for kind, h, maxlen, base in cands:
             try:
                 got = explore.replay_history(h, hist)
             except Exception:
                 continue
             if any(g["clause"] == v["clause"] for g in got):
                 small = explore._minimise_tuples(h, hist, v["clause"], v["site"])
-                v["witness"] = {"seam": kind, "maxlen": maxlen, "history": [list(e) for e in small]}
+                v["witness"] = {"seam": kind, "maxlen": maxlen, "base": base, "history": [list(e) for e in small]}
                 break
 
 
 def replay(witness):
     if witness.get("seam") == "circuit":
-        return explore.replay_history(CircuitHarness(int(witness.get("maxlen", 2))), witness["history"])
+        return explore.replay_history(CircuitHarness(int(witness.get("maxlen", 2)), base=int(witness.get("base", 1))), witness["history"])
     h = Harness(int(witness.get("maxlen", 3)))
     return explore.replay_history(h, witness["history"])
